@@ -11,9 +11,10 @@ import DitModel.Drv.Pid
 import DitModel.Drv.Channel
 import DitModel.Drv.Meet
 import DitModel.Drv.Maxent
+import DitModel.Drv.AuxJoint
 open Dit Dit.Drv
 
-def handlers : List (String × (J → Option J)) := basicHandlers ++ simplexHandlers ++ infoHandlers ++ opsHandlers ++ constrHandlers ++ divergeHandlers ++ pidHandlers ++ channelHandlers ++ meetHandlers ++ maxentHandlers
+def handlers : List (String × (J → Option J)) := basicHandlers ++ simplexHandlers ++ infoHandlers ++ opsHandlers ++ constrHandlers ++ divergeHandlers ++ pidHandlers ++ channelHandlers ++ meetHandlers ++ maxentHandlers ++ auxHandlers
 
 def answer (line : String) : String :=
   let line := line.trimAscii.toString
